@@ -1013,6 +1013,69 @@ def _thread_flags(fn, body_list):
   return changed
 
 
+# methods that are what the object's __next__ does until the result is falsy (ConfigParser.__next__, checked by rule C16.stream)
+PULL_METHODS = {'parse_statement'}
+
+
+def _unroll_literal_loop(fn, body_list):
+  """for v in (E1, E2): BODY   ->   BODY[v:=E1]; BODY[v:=E2]      (few simple elements, small straight-line body)"""
+  changed = 0
+  i = 0
+  while i < len(body_list):
+    st = body_list[i]
+    if isinstance(st, ast.For) and not st.orelse and isinstance(st.target, ast.Name) and isinstance(st.iter, (ast.Tuple, ast.List)) \
+        and 1 <= len(st.iter.elts) <= 4 and all(_simple(e) for e in st.iter.elts) and len(st.body) <= 3 \
+        and all(isinstance(b, (ast.Expr, ast.Assign, ast.AugAssign)) for b in st.body) \
+        and not any(_stores(b, st.target.id) for b in st.body) and fn is not None and not _used_after(fn, st, st.target.id):
+      new = []
+      for e in st.iter.elts:
+        sub = _Subst({st.target.id: e}, {})
+        for b in st.body:
+          nb = sub.visit(copy.deepcopy(b))
+          ast.copy_location(nb, st)
+          ast.fix_missing_locations(nb)
+          new.append(nb)
+      body_list[i:i + 1] = new
+      changed += 1
+      i += len(new)
+      continue
+    i += 1
+  return changed
+
+
+def _rewrite_pull_loop(fn, body_list):
+  """while True: S = X.parse_statement(); if not S: break; BODY     ->   for S in X: BODY
+     while True: S = next(X, None); if S is None: break; BODY        ->   for S in X: BODY"""
+  changed = 0
+  for i, w in enumerate(body_list):
+    if not (isinstance(w, ast.While) and isinstance(w.test, ast.Constant) and w.test.value is True and not w.orelse and len(w.body) >= 2):
+      continue
+    a, b = w.body[0], w.body[1]
+    if not (isinstance(a, ast.Assign) and len(a.targets) == 1 and isinstance(a.targets[0], ast.Name) and isinstance(a.value, ast.Call)
+            and isinstance(b, ast.If) and not b.orelse and len(b.body) == 1 and isinstance(b.body[0], ast.Break)):
+      continue
+    S = a.targets[0].id
+    c = a.value
+    X = None
+    if isinstance(c.func, ast.Attribute) and c.func.attr in PULL_METHODS and isinstance(c.func.value, ast.Name) and not c.args and not c.keywords \
+        and isinstance(b.test, ast.UnaryOp) and isinstance(b.test.op, ast.Not) and ast.unparse(b.test.operand) == S:
+      X = c.func.value
+    elif isinstance(c.func, ast.Name) and c.func.id == 'next' and len(c.args) == 2 and isinstance(c.args[0], ast.Name) \
+        and isinstance(c.args[1], ast.Constant) and c.args[1].value is None and isinstance(b.test, ast.Compare) and len(b.test.ops) == 1 \
+        and isinstance(b.test.ops[0], ast.Is) and ast.unparse(b.test.left) == S and ast.unparse(b.test.comparators[0]) == 'None':
+      X = c.args[0]
+    if X is None or fn is None or _used_after(fn, w, S):
+      continue
+    if any(_stores(x, S) for x in w.body[2:]) or any(_stores(x, X.id) for x in w.body):
+      continue
+    new = ast.For(target=ast.Name(id=S, ctx=ast.Store()), iter=X, body=w.body[2:] or [ast.Pass()], orelse=[])
+    ast.copy_location(new, w)
+    ast.fix_missing_locations(new)
+    body_list[i] = new
+    changed += 1
+  return changed
+
+
 def loop_forms(tree):
   n = 0
   # module-level functions that end in `raise` never return
@@ -1024,6 +1087,8 @@ def loop_forms(tree):
       c += _rewrite_append_loop(fn, body)
       c += _thread_flags(fn, body)
       c += _rewrite_for_genexp(fn, body, noret)
+      c += _rewrite_pull_loop(fn, body)
+      c += _unroll_literal_loop(fn, body)
     n += c
     if not c:
       break
@@ -1036,7 +1101,10 @@ def loop_forms(tree):
 
 _PURE_FUNCS = {'len', 'isinstance', 'issubclass', 'tuple', 'list', 'set', 'frozenset', 'bool', 'str', 'int', 'sorted', 'min', 'max',
                'any', 'all', 'type', 'repr', 'callable', 'hasattr', 'getattr', 'dict', 'enumerate', 'zip', 'range', 'reversed'}
-_PURE_METHODS = {'get', 'keys', 'values', 'items', 'split', 'rsplit', 'partition', 'rpartition', 'startswith', 'endswith', 'join',
+# methods of the repository's own immutable records (config_parser.ImportStatement is a NamedTuple) that only read fields;
+# rule C19.unique-names re-checks on every run that they still are side-effect free
+REPO_PURE_METHODS = {'bound_name', 'partial_path'}
+_PURE_METHODS = REPO_PURE_METHODS | {'get', 'keys', 'values', 'items', 'split', 'rsplit', 'partition', 'rpartition', 'startswith', 'endswith', 'join',
                  'strip', 'lstrip', 'rstrip', 'format', 'lower', 'upper', 'count', 'index', 'find', 'rfind', 'copy', 'match',
                  'search', 'fullmatch', 'replace', 'isidentifier'}
 _MUTATORS = {'update', 'setdefault', 'clear', 'pop', 'popitem', 'append', 'add', 'extend', 'insert', 'remove', 'discard', 'sort', 'reverse'}
@@ -1279,7 +1347,14 @@ def _inline_one(fn, refnames, params):
         last = max(i for i, x in enumerate(after) if any(n in loads for n in ast.walk(x)))
         span = after[:last + 1]
         names = _all_names(E)
-        if not any(_writes_to(x, names, _read_paths(E)) for x in span) and not any(_writes_to(x, {t}) for x in span) \
+        # uses in the header of the last (compound) statement are evaluated before its body runs
+        hdr = _header_nodes(after[last])
+        if hdr and not isinstance(after[last], ast.While) and \
+            sum(1 for h in hdr for n in ast.walk(h) if n in loads) == sum(1 for n in ast.walk(after[last]) if n in loads):
+          wspan = after[:last] + [ast.Expr(value=h) if isinstance(h, ast.expr) else h for h in hdr]
+        else:
+          wspan = span
+        if not any(_writes_to(x, names, _read_paths(E)) for x in wspan) and not any(_writes_to(x, {t}) for x in wspan) \
             and _readonly_uses(span, t, E):
           # calls in between may change attributes / containers E reads
           deep = any(isinstance(n, (ast.Attribute, ast.Subscript, ast.Call)) for n in ast.walk(E))
